@@ -178,11 +178,11 @@ func opsWorker(name string, res *core.Result, r *core.RNG, tier, out string) err
 
 var requiredClasses = map[string][]string{
 	"slots":    {"dgram.report", "dgram.replay", "dgram.resigned-same-content", "outcome.changed", "slots.tour", "sched.burst", "slots.capacity-boundary", "long-run.restart", "report.write-fault"},
-	"weeks":    {"rotate.rotated", "stats.archived", "stats.live1", "stats.live2", "stats.future", "stats.misaligned", "stats.misaligned-archived", "stats.huge", "stats.false-negatives", "impact.round", "impact.negative-zero", "rotate.clock-behind-window", "weeks.tour"},
+	"weeks":    {"rotate.rotated", "stats.archived", "stats.live1", "stats.live2", "stats.future", "stats.misaligned", "stats.misaligned-archived", "stats.huge", "stats.false-negatives", "impact.round", "impact.negative-zero", "rotate.clock-behind-window", "weeks.tour", "weeks.many"},
 	"restart":  {"restart", "restart.catchup", "restart.tour", "restart.write-fault-tour", "register.write-fault", "long-run.restart"},
 	"equip":    {"authorize.new", "authorize.duplicate", "authorize.bad-signature", "authorize.conflict-field", "authorize.conflict-other-key", "authorize.banned-id", "authorize.before-registration", "authorize.conflict-signed-zero", "equip.tour", "authorize.conflict-during-impact-job", "authorize.conflict-write-fault", "authorize.malleated-twin", "equip.k4-then-ban", "equip.key-reused-after-ban", "equip.id-zero", "sched.ban-in-flight"},
 	"register": {"register.valid", "register.wrong-signer", "register.altered-key", "register.other-valid", "register.by-gca", "register.write-fault", "register.damaged-key-file", "register.zero-key", "register.after-archive-and-restart", "register.tour"},
-	"hostile":  {"dgram.hostile-random", "stats.misaligned", "hostile.tour", "peer.ban-reannounce", "shutdown.idle-connections", "shutdown.http-partial-body"},
+	"hostile":  {"dgram.hostile-random", "stats.misaligned", "hostile.tour", "peer.ban-reannounce", "peer.stalled", "stats.during-rotation", "shutdown.idle-connections", "shutdown.http-partial-body"},
 	"crash":    {"crash.image", "crash.recovered", "restart"},
 }
 
